@@ -7,7 +7,7 @@
 set -u
 export GOFLAGS=-mod=mod GOPROXY=off
 P=$1; M=$2; shift 2
-CHECKS=${*:-$P}
+CHECKS=${*:-${P:0:3}}
 SRC=/tmp/seed/out/$P/$M
 WT=/tmp/seedchk/$P-$M
 OUT=/verif/seeded/$P-$M
